@@ -2573,6 +2573,40 @@ func genQ15(w *bufio.Writer, rng *prng, n int, depth int) {
 		fe := fmt.Errorf(f)
 		q.eq("C15", "message differs from fmt.Errorf's", fn("strip", lit(string(txt))), fn("escm", lit(fe.Error())), info)
 	}
+	// %w inside a nested Print/Printf made by an operand's SafeFormat method (or the callback of a
+	// nested Sprintfn-style printer): never a correct use - a bad verb there, nothing captured, text
+	// as Sprintf's
+	for _, outer := range []string{"%v", "%s", "%+v", "%10v", "n: %v.", "%w | %v", "%v | %w"} {
+		for _, inner := range []string{"nested: %w", "%w", "%+w %v", "%v %w"} {
+			e1, e2 := &plainErr{"outer"}, &plainErr{"inner"}
+			sf := sfFunc(func(p redact.SafePrinter) { p.Printf(inner, e2, e2) })
+			sf1 := sfFunc(func(p redact.SafePrinter) { p.Printf(strings.Fields(inner)[0]+"|", e2) })
+			for si, op := range []interface{}{sf, sf1} {
+				var args []interface{}
+				var wantErr error
+				fv := outer
+				switch {
+				case strings.HasPrefix(outer, "%w"):
+					args, wantErr, fv = []interface{}{e1, op}, e1, "%v | %v"
+				case strings.HasSuffix(outer, "%w"):
+					args, wantErr, fv = []interface{}{op, e1}, e1, "%v | %v"
+				default:
+					args = []interface{}{op}
+				}
+				var txt, ref redact.RedactableString
+				var err error
+				p1, _ := try(func() { txt, err = redact.HelperForErrorf(outer, args...) })
+				p2, _ := try(func() { ref = redact.Sprintf(fv, args...) })
+				info := fmt.Sprintf("format %q, operand %d with SafeFormat calling Printf(%q, err...)", outer, si, inner)
+				q.truth("C11", "HelperForErrorf panicked", !p1 && !p2, info)
+				if p1 || p2 {
+					continue
+				}
+				q.truth("C15", "returned error is not the one the property prescribes (nested %w)", sameErr(err, wantErr), info)
+				q.eq("C15", "text differs from Sprintf's (with the correct %w read as %v)", lit(string(txt)), lit(string(ref)), info)
+			}
+		}
+	}
 	for i := 0; i < n; i++ {
 		useHook := rng.coin(1, 3)
 		if useHook {
